@@ -114,3 +114,31 @@ Example C02_example_reference :
   /\ option_map (@length _) (run_passes_adj adv 1 [(8, [r])]%nat [mkslot 67 462 0]) = Some 9%nat
   /\ run_passes_adj adv 2 [(8, [r]); (8, [r])]%nat [mkslot 67 462 0] = None.
 Proof. split; [apply st_init_inv; [lia|discriminate]|]. vm_compute. repeat split. Qed.
+
+(* The finite state machine of a pass.  Whatever bytes a pass holds, the tables the loader builds from them when it accepts the pass
+   (readRanges: glyph -> column; readStates: start states, transitions, the rules of each success state; the rule map) are well
+   formed: every column is below numColumns, every start state and transition names a state, every rule entry names a rule of the
+   pass and no state keeps more than MAX_RULES of them ... *)
+From GR Require Import Base.Mem Model.FsmModel Proofs.FsmProofs.
+Theorem C02_fsm_tables_well_formed : forall (l : bytes) f, read_fsm (mem_of_list l) = FOk f -> f_nrules f <> 0 -> fsm_wf f.
+Proof. intros l f. apply read_fsm_wf. Qed.
+Print Assumptions C02_fsm_tables_well_formed.
+(* ... and over well-formed tables Pass::runFSM, started anywhere in ANY glyph string with any context, indexes no table outside its
+   bounds, pushes at most MAX_SLOTS slots into the slot map (whose array has MAX_SLOTS + 2 entries) and accumulates at most MAX_RULES
+   rules, each of them a rule of the pass; the limits are the source's (gen_fsm_consts_agree). *)
+Theorem C02_fsm_run_in_bounds : forall f ctx gids, fsm_wf f ->
+  exists ok n rs, run_fsm f ctx gids = Some (ok, n, rs) /\ (n <= FsmModel.MAX_SLOTS)%nat /\ (length rs <= FsmModel.MAX_RULES)%nat /\ Forall (fun r => r < f_nrules f) rs.
+Proof. intros f ctx gids W. destruct (run_fsm_safe f ctx gids W) as (ok & n & rs & H & Hn & Hl & Hf). exists ok, n, rs. auto. Qed.
+Print Assumptions C02_fsm_run_in_bounds.
+Theorem C02_fsm_limits_tied : GenLoop.max_slots = N.of_nat FsmModel.MAX_SLOTS /\ GenLoop.max_rules = N.of_nat FsmModel.MAX_RULES.
+Proof. exact gen_fsm_consts_agree. Qed.
+Print Assumptions C02_fsm_limits_tied.
+(* non-vacuity: a compiled pass with the rules "5 6 -> ..." (sort key 2) and "5 -> ..." (sort key 1): its tables are accepted; from a slot
+   holding 5 6 the machine matches both rules, the longer first, with three slots in the map; from 5 9 the second only; from 9 none *)
+Example C02_example_fsm :
+  exists f, read_fsm (mem_of_list [0; 1; 2; 0; 0; 2; 0; 0; 0; 0; 0; 162; 0; 0; 0; 162; 0; 0; 0; 162; 0; 0; 0; 0; 0; 3; 0; 2; 0; 2; 0; 2; 0; 2; 0; 0; 0; 0; 0; 0; 0; 5; 0; 5;
+      0; 0; 0; 6; 0; 6; 0; 1; 0; 0; 0; 1; 0; 2; 0; 1; 0; 0; 0; 0; 0; 0; 0; 2; 0; 1; 0; 0; 0; 0; 0; 0; 0; 0; 0; 0; 0; 0; 0; 0; 5; 0; 9; 0; 1; 0; 0; 0; 0; 0; 2; 0; 28; 0; 25;
+      25; 49; 28; 1; 25; 49]) = FOk f
+  /\ f_nrules f = 2 /\ f_nglyphs f = 7
+  /\ run_fsm f 0 [5; 6; 5; 9] = Some (true, 3%nat, [0; 1]) /\ run_fsm f 0 [5; 9] = Some (true, 2%nat, [1]) /\ run_fsm f 0 [9] = Some (true, 1%nat, []).
+Proof. eexists. split; [vm_compute; reflexivity|]. vm_compute. repeat split. Qed.
